@@ -5,7 +5,8 @@ UNIT = dict(
     files={"service": CH + "service.rs", "config": CH + "config.rs"},
     default_file="service",
     verus_flags=["--no-erasure-check"],
-    rules=[("R1",), ("R2",)],
+    # (a hand-written `impl Clone for Chaos` is extracted with these unit-wide rules only)
+    rules=[("R1",), ("R2",), ("sub", "R8-lock", r"\bself\s*\.\s*rng\s*\.\s*lock\(\)\s*\.\s*unwrap\(\)", "vx_lock(&self.rng)", -1)],
     extra_params=["clk", "tr"],
     fns={
         "Chaos::poll_ready@Service": dict(),
